@@ -36,9 +36,11 @@ RULE = ("one evaluation = one (configuration, position, header list, encoding fo
 EXTRA = [
     (b"", b"x"), (b" x-lead", b"v"), (b"x-trail ", b"v"), (b"x-val", b" v"), (b"x-bin", b"\xff\xfe"), (b"x-\xff", b"v"),
     (b"x-nul", b"a\x00b"), (b":", b"x"), (b"cookie", b"b=2"), (b"cookie", b"c=3"), (b"x-in ner", b"v"),
+    # the other four octets Python (and the library) count as whitespace: LF, CR, VT, FF at either end of a name or a value
+    (b"x-lf", b"v\n"), (b"\rx-cr", b"v"), (b"x-vt", b"\x0bv"), (b"x-ff\x0c", b"v"),
 ]
 TOKENS = c14.TOKENS + EXTRA
-SMALL = c14.SMALL_TOKENS + [EXTRA[0], EXTRA[1], EXTRA[3], EXTRA[4], EXTRA[8], EXTRA[9]]
+SMALL = c14.SMALL_TOKENS + [EXTRA[0], EXTRA[1], EXTRA[3], EXTRA[4], EXTRA[8], EXTRA[9], EXTRA[11], EXTRA[14]]
 TINY = [c14.TOKENS[i] for i in (0, 4, 5, 7, 8, 11, 14, 22, 24)] + [EXTRA[0], EXTRA[3], EXTRA[4], EXTRA[8]]
 POSITIONS = {
     # name: (client, state, block type, base list)
